@@ -26,8 +26,9 @@ func init() {
 		Assumptions: []string{
 			"the statement only covers calls that RETURN an error; faults swallowed by the operation and panics raised from a failing callback are outside it and are reported as observations (absorbed_faults, panics_under_fault)",
 		},
-		MinObs: map[string]int64{"faults_surfaced_as_error": 2000, "faults_load": 500, "faults_compare": 500, "faults_marshal": 100, "retries_checked": 2000},
-		Run:    runC12,
+		MinObs:  map[string]int64{"faults_surfaced_as_error": 2000, "faults_load": 500, "faults_compare": 500, "faults_marshal": 100, "retries_checked": 2000},
+		Run:     runC12,
+		EvalObs: []string{"fault_runs"},
 	})
 }
 
